@@ -11,6 +11,7 @@ import (
 	nurl "net/url"
 	"os"
 	"path/filepath"
+	"regexp"
 	"strings"
 	"time"
 
@@ -258,6 +259,8 @@ func makeRoot(kind, page string, r *rand.Rand, g *docGen) (*html.Node, string) {
 	return doc, "document"
 }
 
+var rxRoleAttr = regexp.MustCompile(` role="[^"]*"`)
+
 var loopback *httptest.Server
 var loopbackPage string
 
@@ -420,7 +423,12 @@ func runCalls(c Case, e *env) []Event {
 			obs["pag"] = d["pagination"]
 			obs["pagempty"] = res.PaginationInfo.NextPage == "" && res.PaginationInfo.PrevPage == ""
 			obs["wc"] = res.WordCount
-			obs["view"] = dig(res.Text + "\x00" + renderNode(res.Node))
+			viewHTML := renderNode(res.Node)
+			if variant != "" {
+				// the renamed marker itself (role survives attribute stripping) is not a difference
+				viewHTML = rxRoleAttr.ReplaceAllString(viewHTML, "")
+			}
+			obs["view"] = dig(res.Text + "\x00" + viewHTML)
 			obs["txtwc"] = len(strings.Fields(res.Text))
 			obs["ntitle"] = len(res.Title)
 			obs["onlytxt"] = onlyText(res.Node)
